@@ -126,7 +126,12 @@ func extractEvents(repo string, o *leanOut) {
 		{"ev_channel_Free", "mpx", "*channel", "Free", chanMarks},
 		{"ev_channel_receive", "mpx", "*channel", "receive", chanMarks},
 		{"ev_channel_ReceiveAsync", "mpx", "*channel", "ReceiveAsync", []string{"recvBytes", "recvQueue", "sendWindow", ".closed."}},
-		{"ev_channel_Receive", "mpx", "*channel", "Receive", []string{"ReceiveAsync"}},
+		{"ev_channel_Receive", "mpx", "*channel", "Receive", []string{"ReceiveAsync", "ReceiveWait"}},
+		{"ev_channel_ReceiveWait", "mpx", "*channel", "ReceiveWait", []string{"recvQueue", "acquire", "release"}},
+		{"ev_conn_sendLoop", "mpx", "*conn", "sendLoop", []string{"writeq", "sendMessage", "flush"}},
+		{"ev_rpc_client_Receive", "rpc", "*channel", "Receive", []string{"ReceiveAsync", "ReceiveWait"}},
+		{"ev_rpc_server_Receive", "rpc", "*serverChannel", "Receive", []string{"ReceiveAsync", "ReceiveWait"}},
+		{"ev_client_new", "mpx", "", "newClientDialer", []string{"connect", "mu."}},
 		{"ev_channel_Send", "mpx", "*channel", "Send", []string{"sendWindow", "decrementSendWindow", ".sender.", ".closed.", ".opened.", ".open", "sendMu"}},
 		{"ev_channel_SendAndClose", "mpx", "*channel", "SendAndClose", []string{"sendWindow", ".sender.", ".closed.", ".opened.", ".open", ".close", "sendMu"}},
 		{"ev_state_decrementSendWindow", "mpx", "*channelState", "decrementSendWindow", []string{"sendWindow"}},
